@@ -11,7 +11,8 @@
 //!                      ["settled"]       nothing may be owed any more (after the trailing polls of a generated script)
 //!                      ["eagain",n]      the next n writes of the terminal object to the tty fail with EAGAIN (verif-hooks
 //!                                        fault script; consumed by the next poll, which reports how many it used)],
-//!              "end":"drop"|"drop_paused"|"run_err"|"render_quit"}
+//!              "end":"drop"|"drop_paused"|"run_err"|"render_quit"|"panic" (released by the unwinding of a panic),
+//!              "tee":"file"|"full"|"fifo"  duplicate_output on a healthy file / on /dev/full / on a fifo whose reader has gone}
 //!             ms = -1: no timeout (only generated when something is outstanding)
 //!             {"stress":{"threads":t,"wakes":w}}
 //!             {"blocked_wake":true}   wake pending, output stalled, infinite poll (returns at once since the third fix)
@@ -163,6 +164,9 @@ pub fn run_script(input: &Value) -> Case {
     let main_thread = unsafe { libc::pthread_self() } as usize;
     let mut late = false;
     let mut wake_owed = false;
+    let mut tee_file: Option<String> = None;
+    let mut tee_mark = 0usize;
+    let mut tee_written = 0usize; // bytes handed to the terminal object since the tee was set
     {
         let term = sess.term.as_mut().unwrap();
         let peer = sess.peer.as_ref().unwrap();
@@ -171,6 +175,36 @@ pub fn run_script(input: &Value) -> Case {
         while term.frames_pending() > 0 && t0.elapsed() < Duration::from_secs(3) {
             let _ = term.poll(Some(Duration::from_millis(2)));
         }
+        // the debugging copy of the output (duplicate_output): a healthy file, a device that refuses every write,
+        // a fifo whose reader has gone (EPIPE).  BufWriter holds 8 KiB: with less output than that a failing tee
+        // only fails when it is flushed.
+        match input["tee"].as_str() {
+            Some("file") => {
+                let path = format!("/tmp/c16-tee-{}.log", std::process::id());
+                let _ = term.duplicate_output(&path);
+                tee_file = Some(path);
+            }
+            Some("full") => {
+                let _ = term.duplicate_output("/dev/full");
+            }
+            Some("fifo") => {
+                let path = format!("/tmp/c16-tee-{}.fifo", std::process::id());
+                let _ = std::fs::remove_file(&path);
+                let cpath = std::ffi::CString::new(path.clone()).unwrap();
+                unsafe { libc::mkfifo(cpath.as_ptr(), 0o600) };
+                let rd = unsafe { libc::open(cpath.as_ptr(), libc::O_RDONLY | libc::O_NONBLOCK) };
+                let _ = term.duplicate_output(&path);
+                if rd >= 0 {
+                    unsafe { libc::close(rd) };
+                }
+                let _ = std::fs::remove_file(&path);
+            }
+            _ => {}
+        }
+        if let Some(t) = input["tee"].as_str() {
+            tags.push(format!("tee={}", t));
+        }
+        tee_mark = sess.peer.as_ref().map(|p| p.received_len()).unwrap_or(0);
         for a in input["acts"].as_array().map(|a| a.as_slice()).unwrap_or(&[]) {
             let k = a[0].as_str().unwrap_or("");
             kinds.insert(k.to_string());
@@ -224,6 +258,7 @@ pub fn run_script(input: &Value) -> Case {
                     let len = a[1].as_u64().unwrap_or(1) as usize;
                     let b: Vec<u8> = (0..len).map(|i| 32 + (i % 90) as u8).collect();
                     let _ = term.write(&b);
+                    tee_written += len;
                     acts_coq.push(format!("AWrite {}", len));
                 }
                 "pause" => {
@@ -360,8 +395,26 @@ pub fn run_script(input: &Value) -> Case {
             Ok(()) => ("ON".into(), json!("ok")),
         });
     }
+    if let Some(kind) = input["tee"].as_str() {
+        // the oracle of the model: a healthy copy never fails; a failing one fails in the first poll of dispose's
+        // wait when more than BufWriter's 8 KiB went through it or is still to go (otherwise only its last flush
+        // fails, after dispose, unseen)
+        let fails = kind != "file" && tee_written + 64 > 8192;
+        acts_coq.insert(0, format!("ATee {}", if fails { "[false]" } else { "[]" }));
+    }
     let before_len = peer.received_len();
     let t0 = Instant::now();
+    if end == "panic" {
+        // the object is released by the unwinding of a panic
+        let t = sess.term.take();
+        let hook = std::panic::take_hook();
+        std::panic::set_hook(Box::new(|_| {}));
+        let _ = std::panic::catch_unwind(std::panic::AssertUnwindSafe(move || {
+            let _owned = t;
+            panic!("scripted panic with the terminal object alive");
+        }));
+        std::panic::set_hook(hook);
+    }
     drop(sess.term.take());
     let drop_ms = t0.elapsed().as_millis() as u64;
     let after = if hung_up { None } else { tcgetattr(sess.master_fd) };
@@ -379,6 +432,15 @@ pub fn run_script(input: &Value) -> Case {
     let has = |needle: &[u8]| tail.windows(needle.len()).any(|w| w == needle);
     // (once the settings are restored the tty echoes the peer's late answer, so the request need not be last)
     let closing = has(b"\x1b[?1003l") && has(b"\x1b[?1006l") && has(b"\x1b[?1000l") && has(b"\x1b[?25h") && has(b"\x1b[c");
+    // a healthy tee holds what was delivered since it was set, the closing sequence included (recorded, not judged:
+    // C16 is about the copy's content)
+    let tee_copy = tee_file.as_ref().map(|p| {
+        let copy = std::fs::read(p).unwrap_or_default();
+        let _ = std::fs::remove_file(p);
+        let delivered = &received[tee_mark.min(received.len())..];
+        json!({"len": copy.len(), "prefix_of_delivered": delivered.starts_with(&copy),
+               "has_closing": copy.windows(3).any(|w| w == b"\x1b[c")})
+    });
     if late {
         tags.push("late".into());
     }
@@ -393,7 +455,7 @@ pub fn run_script(input: &Value) -> Case {
         tags.push("unexpected_wait".into());
     }
     let tail_txt: String = tail.iter().rev().take(120).rev().map(|b| if *b == 0x1b { "^[".to_string() } else if (32..127).contains(b) { (*b as char).to_string() } else { format!("<{}>", b) }).collect();
-    j["impl"] = json!({"polls": obs_json, "restored": restored, "closing_delivered": closing, "drop_ms": drop_ms,
+    j["impl"] = json!({"polls": obs_json, "restored": restored, "closing_delivered": closing, "drop_ms": drop_ms, "tee_copy": tee_copy,
                        "left_through": via.as_ref().map(|v| v.1.clone()), "after_drop_tail": tail_txt});
     let endk = if hung_up { "EHup" } else if end == "drop_paused" { "EDropPaused" } else { "EDrop" };
     if end == "drop_flood" {
@@ -758,15 +820,41 @@ fn gen_script(rng: &mut Rng) -> Value {
     let end = match rng.below(12) {
         0 => "run_err",
         1 => "render_quit",
+        2 => "panic",
         _ => "drop",
+    };
+    // the debugging copy of the output in a fifth of the sessions; with a copy that cannot be written the output
+    // stays under the 8 KiB of its buffer (more would make the polls of the session return its error, which is
+    // correct and not what these sessions are about), except for a last frame that only dispose gets to send
+    let tee = if rng.chance(1, 5) { Some(*rng.pick(&["file", "file", "full", "fifo"])) } else { None };
+    if let Some(kind) = tee {
+        if kind != "file" {
+            let mut writes = 0;
+            for a in acts.iter_mut() {
+                if a[0] == "write" {
+                    writes += 1;
+                    let len = a[1].as_u64().unwrap_or(1);
+                    *a = json!(["write", if writes <= 8 { 1 + len % 700 } else { 1 }]);
+                }
+            }
+            if (end == "drop" || end == "panic") && rng.chance(1, 2) {
+                acts.push(json!(["write", 9000 + rng.below(60000)]));
+            }
+        }
+    }
+    let with_tee = |mut v: Value| {
+        if let Some(kind) = tee {
+            v["tee"] = json!(kind);
+        }
+        v
     };
     // a hang-up at any point (with a SIGWINCH outstanding the size query of its handling fails on the dead tty)
     if rng.chance(1, 8) {
         acts.push(json!(["hup"]));
         acts.push(json!(["poll", 0]));
-        return json!({"acts": acts, "end": "drop"});
+        return with_tee(json!({"acts": acts, "end": "drop"}));
     }
-    json!({"acts": acts, "end": end})
+    with_tee(json!({"acts": acts, "end": end}))
 }
 
 pub fn generate(rng: &mut Rng, n: usize, _tier: &str) -> Vec<Value> {
@@ -797,6 +885,20 @@ pub fn generate(rng: &mut Rng, n: usize, _tier: &str) -> Vec<Value> {
     v.push(json!({"acts": [["in", "k"], ["hup"], ["poll", 0], ["poll", 0]], "end": "drop"}));
     v.push(json!({"acts": [["wake", 1], ["poll", 0]], "end": "run_err"}));
     v.push(json!({"acts": [["write", 5000], ["poll", 0], ["winch"]], "end": "render_quit"}));
+    // duplicate_output (healthy file, /dev/full, fifo without a reader) on every way out
+    for tee in ["file", "full", "fifo"] {
+        for end in ["drop", "panic", "run_err", "render_quit"] {
+            v.push(json!({"tee": tee, "acts": [["write", 900], ["wake", 1], ["poll", 0], ["in", "k"], ["poll", 0], ["poll", 0]], "end": end}));
+        }
+        v.push(json!({"tee": tee, "acts": [["write", 500], ["term", 1], ["poll", 0], ["poll", 0]], "end": "drop"}));
+        v.push(json!({"tee": tee, "acts": [["write", 500], ["poll", 0], ["hup"], ["poll", 0]], "end": "drop"}));
+        v.push(json!({"tee": tee, "acts": [["write", 100000]], "end": "drop"}));
+    }
+    // the tty refuses the first writes of dispose (fault script: EAGAIN while select reports it writable)
+    v.push(json!({"acts": [["write", 3000], ["eagain", 40]], "end": "drop"}));
+    v.push(json!({"tee": "full", "acts": [["write", 3000], ["eagain", 40]], "end": "panic"}));
+    // (a stalled peer at the drop needs the tty's buffer full, more than a failing copy lets through a poll)
+    v.push(json!({"tee": "file", "acts": [["pause", true], ["write", 300000], ["poll", 3]], "end": "drop_paused"}));
     while v.len() < n {
         if rng.chance(1, 25) {
             v.push(json!({"stress": {"threads": 2 + rng.below(6), "wakes": 50 + rng.below(2000)}}));
